@@ -357,6 +357,16 @@ impl Ctx {
     }
 
     pub fn write_report(&mut self) {
+        self.write_report_inner(true)
+    }
+
+    /// The report so far, written after every subject (without the hash files): if a later subject takes the process
+    /// down or makes it overrun its wall limit, the driver still has what the earlier subjects found.
+    pub fn write_report_partial(&mut self) {
+        self.write_report_inner(false)
+    }
+
+    fn write_report_inner(&mut self, final_report: bool) {
         let Some(out) = self.args.out.clone() else { return };
         let known: Vec<Value> = self
             .known
@@ -384,12 +394,15 @@ impl Ctx {
             "samples": self.samples,
             "machinery_errors": self.machinery_errors,
             "wall_s": self.start.elapsed().as_secs_f64(),
+            "partial": !final_report,
         });
         let tmp = out.with_extension("tmp");
         std::fs::write(&tmp, serde_json::to_vec(&rep).unwrap()).expect("write report");
         std::fs::rename(&tmp, &out).expect("rename report");
-        write_hashes(&out.with_extension("states"), &self.state_hashes);
-        write_hashes(&out.with_extension("cases"), &self.case_hashes);
+        if final_report {
+            write_hashes(&out.with_extension("states"), &self.state_hashes);
+            write_hashes(&out.with_extension("cases"), &self.case_hashes);
+        }
     }
 }
 
@@ -703,6 +716,7 @@ pub fn main_with(property: &str, build: impl FnOnce(&mut Registry, Tier)) {
         }
         s.explore(&mut ctx);
         ctx.journal_clear();
+        ctx.write_report_partial();
     }
     ctx.write_report();
     let _ = std::io::stderr().flush();
